@@ -316,6 +316,8 @@ pub fn record(input: &Value) -> Result<Vec<Value>, String> {
                 }
             }
             "done" => {}
+            // the loader's own events (core/src/load.rs) belong to LoaderTrace.tla
+            "enter" | "deliver" | "descend" | "notfound" | "cycle" | "io" | "return" => continue,
             other => return Err(format!("unknown hook event {}", other)),
         }
         out.push(ev);
